@@ -195,13 +195,13 @@ def assert_string_is_a_valid_label(l) :
     if isnone(l) : 
         return
     
+    if "->" in l :
+        raise ValueError("label cannot contain the \"->\" sequence.")
     for c in l : 
-        if c in string.whitespace : 
+        if c.isspace() : 
             raise ValueError("unexpected whitespace character in label.")
         if c in "+" :
             raise ValueError("unexpected character \"+\" in label.")
-        if c.count("->") > 0 :
-            raise ValueError("label cannot contain the \"->\" sequence.")
 
 def get_value_in_env(value, environment, default) :
     if isdict(value) :
